@@ -156,8 +156,15 @@ pub fn run_op(op: &Value) -> Value {
     Ok(Some(_)) => "module".to_string(),
     Ok(None) => "absent".to_string(),
   };
+  let err_has_referrer = match graph.try_get(&xs) {
+    Err(e) => match e.as_kind() {
+      ModuleErrorKind::Load { maybe_referrer, .. } | ModuleErrorKind::Missing { maybe_referrer, .. } => Some(maybe_referrer.is_some()),
+      _ => None,
+    },
+    _ => None,
+  };
   let calls: Vec<Value> = loader.calls.borrow().iter().map(|c| json!({"cache_setting": c["cache_setting"], "checksum": c["checksum"]})).collect();
-  json!({"calls": calls, "result": result})
+  json!({"calls": calls, "result": result, "err_has_referrer": err_has_referrer})
 }
 
 
